@@ -682,4 +682,11 @@ def rule_framing_premise(ctx):
     rules_c06.rule_tables(ctx)
 
 
-RULES = [rule_instances, rule_who_writes, rule_verdict, rule_capacity, rule_lost_boundaries, rule_framing_premise]
+def rule_parser_premise(ctx):
+    """`the response carried Connection: close` is read off the parsed response: that every field the server sent reaches it
+    (no field is skipped, no pre-check answers for the tokeniser) is R05.1 on the head parser, shared"""
+    from . import rules_parsers
+    rules_parsers.rule_c05_parser(ctx)
+
+
+RULES = [rule_instances, rule_who_writes, rule_verdict, rule_capacity, rule_lost_boundaries, rule_framing_premise, rule_parser_premise]
